@@ -3,6 +3,7 @@ import GB.C05.PipelineProofs
 import GB.C05.Deadlock
 import GB.C05.Deciders
 import GB.C05.Ext
+import GB.C05.ExtProofs
 import GB.Generated.Facts
 /-
   C05 — reflection resolution reproduces the target's contract for any conformant server.
@@ -1026,6 +1027,65 @@ theorem C05_weak_pkg_witness :
     (newFilesX [x fc [99] [] [], x { fb with deps := [[99], [99]] } [98] [] []]).toOption = none ∧
     (newFilesX [x fc [99] [] [], x fb [98] [] []]).toOption.isSome = true := by decide
 
+
+/-! ### `newFilesX` is a conservative extension of the base `newFiles` -/
+
+/-- On descriptor sets that use none of the extended features — every file `plain` (no public / weak imports,
+    syntax proto2/proto3/unset, no `required` marker, imports listed once, no self import) and no top-level symbol
+    equal to a package name or a prefix of one — the extended acceptance IS the base one: `newFilesX` accepts
+    exactly when `newFiles` does, with the same error otherwise, and delivers the same registry.  Hence every
+    `C05_complete_*` statement (which speaks of `newFiles`) is a statement about `newFilesX` on such sets. -/
+theorem C05_newFilesX_conservative (xs : List XFile) (hp : ∀ x ∈ xs, plain x = true)
+    (hk : pkgConflictB xs = false) : newFilesX xs = newFiles (xs.map (·.file)) :=
+  newFilesX_conservative hp hk
+
+/-- … so the delivered description is the base pipeline's: registry and `parseTarget` projection. -/
+theorem C05_parseX_conservative (xs : List XFile) (wanted : List Name) (hp : ∀ x ∈ xs, plain x = true)
+    (hk : pkgConflictB xs = false) :
+    parseFileDescriptorsX xs wanted =
+      match newFiles (xs.map (·.file)) with
+      | .error e => .error e
+      | .ok reg => .ok { services := parseTarget reg wanted, files := reg } := by
+  unfold parseFileDescriptorsX
+  rw [C05_newFilesX_conservative xs hp hk]
+  cases newFiles (xs.map (·.file)) <;> rfl
+
+open GB.C05.ExtWitness in
+/-- Neither hypothesis can be dropped, and the statement is not vacuous: a plain conflict-free set is accepted by
+    both; a plain set with a symbol that is a prefix of a package is accepted by `newFiles` and rejected by
+    `newFilesX`; a non-plain set (public import) is accepted by `newFilesX` and rejected by `newFiles`. -/
+theorem C05_newFilesX_conservative_tight :
+    (plain (x fc [99] [] []) && plain (x fb [98] [] []) && !pkgConflictB [x fc [99] [] [], x fb [98] [] []]) = true ∧
+    (newFilesX [x fc [99] [] [], x fb [98] [] []]).toOption = (newFiles [fc, fb]).toOption ∧
+    (newFiles [fc, fb]).toOption.isSome = true ∧
+    plain (x { fb with deps := [] } [99, 46, 77, 46, 122] [] []) = true ∧
+    (newFiles [fc, { fb with deps := [] }]).toOption.isSome = true ∧
+    (newFilesX [x fc [99] [] [], x { fb with deps := [] } [99, 46, 77, 46, 122] [] []]).toOption = none ∧
+    plain (x fb [98] [0] []) = false ∧
+    (newFilesX [x fa [97] [] [], x fb [98] [0] [], x fc [99] [] []]).toOption.isSome = true ∧
+    (newFiles [fa, fb, fc]).toOption = none := by decide
+
+/-- `C05_success_is_complete` lifted to the extended acceptance, for targets whose descriptor set uses none of the
+    extended features: whatever a successful conversation delivers is (the file part of) a sub-set `ys` of the target's
+    extended files that `newFilesX` accepts with exactly the delivered registry.
+    PARTIAL.  The full statement drops `hp` for `import public`:
+      (hwfx : newFilesX xs = .ok (xs.map (·.file))) (hnoweak : ∀ x ∈ xs, x.weak = []) … ⊢ same conclusion.
+    Missing lemma (only the `typesResolveXB` clause needs it; the other eight clauses restrict to sub-sets as in
+    `newFiles_ok`):  for `ys ⊆ xs` with unique names and `closedXB ys`,  `y ∈ ys → n ∈ pubReach xs xs.length y.file.deps
+    → n ∈ pubReach ys ys.length y.file.deps`  — public-import reachability is computed inside any import-closed
+    sub-set, which needs (a) `pubReach` monotone/stable past its fixpoint and (b) a pigeonhole bound showing fuel
+    `ys.length` already reaches the fixpoint over `ys`. -/
+theorem C05_success_is_complete_X_partial {cfg : Cfg} {xs : List XFile} {listed : List Name} {pol : Policy}
+    {sched : Sched} (hwf : WF cfg ⟨xs.map (·.file), listed⟩) (hp : ∀ x ∈ xs, plain x = true)
+    (hk : pkgConflictB xs = false) (hc : Conformant ⟨xs.map (·.file), listed⟩ pol)
+    (hno : cfg.onlyServices = false) {h : History} {ok : StreamOk}
+    (he : runStream (dedupFiles []) cfg pol sched = (h, .ok ok)) :
+    ∃ ys, ys.map (·.file) = ok.files ∧ (∀ y ∈ ys, y ∈ xs) ∧ newFilesX ys = .ok ok.files := by
+  have hk' := C05_success_is_complete hwf hc hno he
+  rcases exists_preimage (·.file) xs ok.files hk'.own with ⟨ys, hy, hs⟩
+  refine ⟨ys, hy, hs, ?_⟩
+  rw [C05_newFilesX_conservative ys (fun y h => hp y (hs y h)) (pkgConflict_sub hs hk), hy]
+  exact hk'.registry
 
 /-! ## Message types are those of THIS resolution's registry (history of resolutions; seeded regression C05-m11) -/
 
